@@ -142,15 +142,22 @@ func (C13) Decode(b []byte) (interface{}, error) {
 }
 
 // opCtx carries the services of one run.
+type mapperIface interface {
+	influxql.FieldMapper
+	CallType(name string, args []influxql.DataType) (influxql.DataType, error)
+}
+
 type opCtx struct {
 	env    *OpEnv
-	mapper *simschema.Mapper
+	mapper *simschema.Mapper // per-context stub (statistics live here)
+	fm     mapperIface       // the mapper operations use (the stub, or a mapper shared between tasks)
 	valuer influxql.Valuer
 }
 
 func newOpCtx(env *OpEnv) *opCtx {
 	c := &opCtx{env: env}
 	c.mapper = simschema.NewMapper(env.Schema, env.MFaults)
+	c.fm = c.mapper
 	c.valuer = simschema.NewValuer(&env.Valuer).(influxql.Valuer)
 	return c
 }
@@ -253,7 +260,7 @@ func (c *opCtx) applySelectOp(s *influxql.SelectStatement, op Op) (result string
 		s.RewriteTimeFields()
 		return "", nil
 	case "RewriteFields":
-		r, err := s.RewriteFields(c.mapper)
+		r, err := s.RewriteFields(c.fm)
 		if err != nil {
 			return "error: " + err.Error(), nil
 		}
@@ -289,9 +296,9 @@ func (c *opCtx) applySelectOp(s *influxql.SelectStatement, op Op) (result string
 		fmt.Fprint(&sb, influxql.EvalBool(s.Condition, m))
 		return sb.String(), nil
 	case "EvalType":
-		return influxql.EvalType(pickExpr(s, op.Arg), s.Sources, c.mapper).String(), nil
+		return influxql.EvalType(pickExpr(s, op.Arg), s.Sources, c.fm).String(), nil
 	case "TypeValuerEval":
-		tv := influxql.TypeValuerEval{TypeMapper: c.mapper, Sources: s.Sources}
+		tv := influxql.TypeValuerEval{TypeMapper: c.fm, Sources: s.Sources}
 		if op.Arg%5 == 0 {
 			tv.TypeMapper = nil
 		}
@@ -348,7 +355,7 @@ func (c *opCtx) applySelectOp(s *influxql.SelectStatement, op Op) (result string
 	case "IsSelector":
 		return fmt.Sprint(influxql.IsSelector(pickExpr(s, op.Arg))), nil
 	case "FieldDimensions":
-		f, d, err := influxql.FieldDimensions(s.Sources, c.mapper)
+		f, d, err := influxql.FieldDimensions(s.Sources, c.fm)
 		return fmt.Sprint(len(f), len(d), err), nil
 	case "BinaryExprName":
 		if be, ok := pickExpr(s, op.Arg).(*influxql.BinaryExpr); ok {
@@ -427,8 +434,16 @@ func (C13) Exec(pi interface{}) *core.RunResult {
 	res := &core.RunResult{}
 	st, err := influxql.ParseStatement(p.Text)
 	if err != nil {
-		res.Skipped = "text not accepted"
-		return res
+		// a client that retries: whatever a second parse of the same text accepts is an accepted
+		// statement too, and the operations must be total on it
+		var st2 influxql.Statement
+		var err2 error
+		if pan := core.Guard(func() { st2, err2 = influxql.ParseStatement(p.Text) }); pan != nil || err2 != nil || st2 == nil {
+			res.Skipped = "text not accepted"
+			return res
+		}
+		res.Probe("accepted-on-retry")
+		st = st2
 	}
 	ctx := newOpCtx(&p.Env)
 	var trace strings.Builder
